@@ -151,6 +151,19 @@ fn create_composite(
             GlyphProblem::MissingDefault,
         ));
     };
+    // glyf stores component offsets as 16-bit values; rounding a larger value into
+    // an i16 saturates silently, so reject it while we still have the source value.
+    let fits = |v: f64| (i16::MIN as f64..=i16::MAX as f64).contains(&(v + 0.5).floor());
+    if let Some((_, _, transform)) = components.iter().find(|(_, loc, transform)| {
+        let [.., e, f] = transform.as_coeffs();
+        default_location == loc && !(fits(e) && fits(f))
+    }) {
+        let [.., e, f] = transform.as_coeffs();
+        return Err(Error::OutOfBounds {
+            what: format!("component offset of glyph '{}'", glyph.name),
+            value: format!("({e}, {f})"),
+        });
+    }
     let components_at_default = components
         .iter()
         .filter_map(|(ref_glyph_name, loc, transform)| {
